@@ -421,6 +421,16 @@ func TestVerifC01Stream(t *testing.T) {
 			Drivers: []plDriver{{Kind: "start", Coll: 0}, {Kind: "addpart", Coll: 0, Part: "p1", PartState: pb.PartitionState_PartitionDropped, OldPart: true},
 				{Kind: "addpart", Coll: 0, Part: "p1", PartState: pb.PartitionState_PartitionCreated}}, HeavyBound: 1})
 	}
+	// the task starts while a partition drop is in flight: the source catalog already says Dropping, the downstream still
+	// has the partition and the drop message (with a delete before it) is still in the backlog - the partition is not
+	// "dropped on both sides", its messages are handed over
+	{
+		c := mkColl(101, "c1", []string{"src-dml_0"}, []string{"tgt-dml_0"})
+		withPartition(c, true)
+		c.Shards[0].Script = []plPack{pkInsPart(1000), {Msgs: []plMsg{{Kind: "del", Ms: 1010, Part: "p1"}}, TickMs: 1010, TickLg: 5}, pkDropPart(1020), pkIns(1030)}
+		scs = append(scs, &plScenario{Name: "partition-dropping-at-start", SrcN: 1, TgtN: 1, Colls: []*plColl{c},
+			Drivers: []plDriver{{Kind: "start", Coll: 0}, {Kind: "addpart", Coll: 0, Part: "p1", PartState: pb.PartitionState_PartitionDropping}}})
+	}
 	// a partition dropped on a two-shard collection: what one shard has already seen of the drop must not change what the
 	// other shard hands over before its own drop message
 	{
@@ -963,6 +973,18 @@ func plDropScenarios(thorough bool) ([]*plScenario, map[string]map[string]bool) 
 		out = append(out, &plScenario{Name: "drop:restart-collection-beside-forwarded", SrcN: 2, TgtN: 2, Colls: []*plColl{c1, c2, d},
 			Drivers: []plDriver{{Kind: "start", Coll: 0}, {Kind: "start", Coll: 1}, {Kind: "start", Coll: 2}}, HeavyBound: 1, MsgPosPChannel: true})
 		synth["drop:restart-collection-beside-forwarded"] = map[string]bool{"coll/default/d": true}
+	}
+	// the dropped collection has no checkpoint of its own (created and dropped while the task was down) and joins the
+	// handler of a collection that was resumed from one: the synthetic drop is generated at the handler's position
+	{
+		c1 := mkColl(101, "c1", []string{"src-dml_0"}, []string{"tgt-dml_0"})
+		d := mkColl(103, "d", []string{"src-dml_0"}, []string{"tgt-dml_0"})
+		c1.SeekMs = 990
+		c1.Shards[0].Script = []plPack{pkIns(1000)}
+		d.Dropped = true
+		out = append(out, &plScenario{Name: "drop:restart-collection-joins-resumed-handler", SrcN: 1, TgtN: 1, Colls: []*plColl{c1, d},
+			Drivers: []plDriver{{Kind: "start", Coll: 0}, {Kind: "start", Coll: 1, AfterFirst: true}}})
+		synth["drop:restart-collection-joins-resumed-handler"] = map[string]bool{"coll/default/d": true}
 	}
 	// restart from a checkpoint that lies before the drop message of a collection already dropped upstream:
 	// every shard sees a synthetic drop AND re-reads the real one; still exactly one request, after all shards
